@@ -257,6 +257,20 @@ fn units(run: &Run) -> Vec<Unit> {
             u.push(Unit { mode: "default-schedule", w, n, bound: Some(0), part: None, spin: 0, hint: 0, work: false });
         }
     }
+    // the same worker counts with a consumer that falls behind as far as it can (base schedule 'fair
+    // workers, consumer last': the channel is full and a further worker waits at its send whenever the
+    // consumer moves), with more items than any buffer sized by the thread count would hold
+    // (worker counts around 2^4, one above 2^5, thorough also around 2^6 and one above 2^7)
+    let mut lagging = tu_verif::enumerate::threshold_lengths(if quick { 5 } else { 6 });
+    lagging.push(33);
+    if !quick {
+        lagging.push(129);
+    }
+    for w in lagging {
+        for n in [w + 2, 2 * w + 3, 4 * w + 1] {
+            u.push(Unit { mode: "lagging-consumer", w, n, bound: Some(0), part: None, spin: 0, hint: 0, work: false });
+        }
+    }
     // more workers than a small-count special case would cover, with more items than the channel
     // holds (the channel fills while the consumer is not scheduled): every schedule with at most one
     // preemption
@@ -356,15 +370,16 @@ fn main() {
         let deadline = run.deadline();
         let mut ex = ex;
         let mut ck = ck;
-        if u.mode == "default-schedule" {
+        let consumer_last = matches!(u.mode, "sender-races" | "channel-races" | "lagging-consumer");
+        sched::set_base_policy(usize::from(consumer_last));
+        POLICY.store(usize::from(consumer_last), Ordering::SeqCst);
+        if u.mode == "default-schedule" || u.mode == "lagging-consumer" {
             let x = ex(&[]);
             ck(&x, &[]);
-            run.count_n("default-schedule:executions", 1);
+            run.count_n(&format!("{}:executions", u.mode), 1);
             per_unit.push(json!({"mode": u.mode, "workers": w, "items": n, "executions": 1, "steps": x.steps.len(), "completed": true}));
             continue;
         }
-        sched::set_base_policy(usize::from(u.mode == "sender-races" || u.mode == "channel-races"));
-        POLICY.store(usize::from(u.mode == "sender-races" || u.mode == "channel-races"), Ordering::SeqCst);
         if u.mode == "sender-races" || u.mode == "channel-races" {
             let senders_only = u.mode == "sender-races";
             let is_point = move |st: &tu_verif::sched::Step| {
